@@ -55,7 +55,7 @@ def run(ctx, replay=None):
         log("  note: %d good inputs were refused (vacuity guard, not a verdict)" % len(sanity))
     seen = set()
     for v in viol:
-        if v["inv"] not in INVS:
+        if v["inv"] == "GoodAccepted":
             continue
         rec = trace_of(v["file"], v["t"], 2)[0]
         key = (v["inv"], rec["consumer"], json.dumps(rec["c"], sort_keys=True))
